@@ -222,7 +222,108 @@ fn build_prog(t: &mut Tape) -> (Prog, Vec<&'static str>) {
     for _ in 0..n {
         let lit = mlstr::gen_literal(t);
         classes.push(lit.class);
-        match t.below(8) {
+        match t.below(14) {
+            8 if !wrap_in_begin => {
+                // argument of a custom attribute on a declaration
+                push(&mut p, "[", Kind::Op, true, 0);
+                push(&mut p, "Description", Kind::Ident, false, 0);
+                push(&mut p, "(", Kind::Op, false, 0);
+                if t.chance(1, 2) {
+                    push(&mut p, "'x'", Kind::Text, false, 0);
+                    push(&mut p, ",", Kind::Op, false, 0);
+                }
+                push(&mut p, &lit.text, Kind::TextMulti, false, 0);
+                push(&mut p, ")", Kind::Op, false, 0);
+                push(&mut p, "]", Kind::Op, false, 0);
+                push(&mut p, "procedure", Kind::Keyword, true, 0);
+                push(&mut p, "Bar", Kind::Ident, false, 0);
+            }
+            9 if !wrap_in_begin => {
+                // default value of a parameter
+                push(&mut p, "procedure", Kind::Keyword, true, 0);
+                push(&mut p, "Baz", Kind::Ident, false, 0);
+                push(&mut p, "(", Kind::Op, false, 0);
+                push(&mut p, "const", Kind::Keyword, false, 0);
+                push(&mut p, "S", Kind::Ident, false, 0);
+                push(&mut p, ":", Kind::Op, false, 0);
+                push(&mut p, "string", Kind::Keyword, false, 0);
+                push(&mut p, "=", Kind::Op, false, 0);
+                push(&mut p, &lit.text, Kind::TextMulti, false, 0);
+                push(&mut p, ")", Kind::Op, false, 0);
+            }
+            10 if !wrap_in_begin => {
+                // elements of a typed array constant
+                let l2 = mlstr::gen_literal(t);
+                classes.push(l2.class);
+                push(&mut p, "const", Kind::Keyword, true, 0);
+                push(&mut p, "A", Kind::Ident, true, 1);
+                push(&mut p, ":", Kind::Op, false, 1);
+                push(&mut p, "array", Kind::Keyword, false, 1);
+                push(&mut p, "[", Kind::Op, false, 1);
+                push(&mut p, "0", Kind::Number, false, 1);
+                push(&mut p, "..", Kind::Op, false, 1);
+                push(&mut p, "1", Kind::Number, false, 1);
+                push(&mut p, "]", Kind::Op, false, 1);
+                push(&mut p, "of", Kind::Keyword, false, 1);
+                push(&mut p, "string", Kind::Keyword, false, 1);
+                push(&mut p, "=", Kind::Op, false, 1);
+                push(&mut p, "(", Kind::Op, false, 1);
+                push(&mut p, &lit.text, Kind::TextMulti, false, 1);
+                push(&mut p, ",", Kind::Op, false, 1);
+                push(&mut p, &l2.text, Kind::TextMulti, false, 1);
+                push(&mut p, ")", Kind::Op, false, 1);
+            }
+            8 | 11 => {
+                // raise with a constructor call, literal plus an open array argument
+                push(&mut p, "raise", Kind::Keyword, true, d0);
+                push(&mut p, "EFoo", Kind::Ident, false, d0);
+                push(&mut p, ".", Kind::Op, false, d0);
+                push(&mut p, "CreateFmt", Kind::Ident, false, d0);
+                push(&mut p, "(", Kind::Op, false, d0);
+                push(&mut p, &lit.text, Kind::TextMulti, false, d0);
+                push(&mut p, ",", Kind::Op, false, d0);
+                push(&mut p, "[", Kind::Op, false, d0);
+                push(&mut p, "X", Kind::Ident, false, d0);
+                push(&mut p, ",", Kind::Op, false, d0);
+                push(&mut p, "Y", Kind::Ident, false, d0);
+                push(&mut p, "]", Kind::Op, false, d0);
+                push(&mut p, ")", Kind::Op, false, d0);
+            }
+            9 | 12 => {
+                // case selector and a statement in a case arm
+                let l2 = mlstr::gen_literal(t);
+                classes.push(l2.class);
+                push(&mut p, "case", Kind::Keyword, true, d0);
+                push(&mut p, "IndexStr", Kind::Ident, false, d0);
+                push(&mut p, "(", Kind::Op, false, d0);
+                push(&mut p, "S", Kind::Ident, false, d0);
+                push(&mut p, ",", Kind::Op, false, d0);
+                push(&mut p, "[", Kind::Op, false, d0);
+                push(&mut p, &lit.text, Kind::TextMulti, false, d0);
+                push(&mut p, "]", Kind::Op, false, d0);
+                push(&mut p, ")", Kind::Op, false, d0);
+                push(&mut p, "of", Kind::Keyword, false, d0);
+                push(&mut p, "0", Kind::Number, true, d0 + 1);
+                push(&mut p, ":", Kind::Op, false, d0 + 1);
+                push(&mut p, "T", Kind::Ident, false, d0 + 1);
+                push(&mut p, ":=", Kind::Op, false, d0 + 1);
+                push(&mut p, &l2.text, Kind::TextMulti, false, d0 + 1);
+                push(&mut p, ";", Kind::Op, false, d0 + 1);
+                push(&mut p, "end", Kind::Keyword, true, d0);
+            }
+            10 | 13 => {
+                // for-in over a set of literals, and a while condition
+                push(&mut p, "for", Kind::Keyword, true, d0);
+                push(&mut p, "S", Kind::Ident, false, d0);
+                push(&mut p, "in", Kind::Keyword, false, d0);
+                push(&mut p, "[", Kind::Op, false, d0);
+                push(&mut p, "'a'", Kind::Text, false, d0);
+                push(&mut p, ",", Kind::Op, false, d0);
+                push(&mut p, &lit.text, Kind::TextMulti, false, d0);
+                push(&mut p, "]", Kind::Op, false, d0);
+                push(&mut p, "do", Kind::Keyword, false, d0);
+                push(&mut p, "Bar", Kind::Ident, true, d0 + 1);
+            }
             7 => {
                 // three literals chained through method-call argument lists: S := L1.M(L2.N(X, L3.K()));
                 let l2 = mlstr::gen_literal(t);
@@ -330,7 +431,7 @@ impl Prop for C12Prop {
         "C12"
     }
     fn rule(&self) -> String {
-        "Streams (proptest tapes): lits = generated multi-line literals (3/5/7 quotes; LF / CR / CRLF / mixed interior endings; closing-line indentation of spaces, tabs, mixed, U+3000, VT, FF; empty lines, strict-prefix lines, over-indented and whitespace-only lines, trailing blanks, ''' inside 5/7-quote literals; invalid variants with a mis-indented line or text before the closing quotes; ambiguous variants with a whitespace-only line that is not a prefix) placed as assignment right-hand side, call argument, method-call receiver, comparison operand, concatenation operand, constant, and inside an anonymous routine, in generated layouts x generated configuration (both values of format_multiline_strings); mlprog = grammar-derived programs with valid literals. Oracle (own literal parser on the input token and the corresponding output token): valid literal and format_multiline_strings: value lines equal incl. trailing blanks, interior terminators are the configured ending, closing indentation == indentation of the opening quotes' line == prefix of every non-empty interior line; invalid literals and all literals under format_multiline_strings=false: byte-equal; ambiguous literals: untouched or regular lines keep their value. Non-trivial = the literal's bytes change; distinct by hash of (input, configuration)."
+        "Streams (proptest tapes): lits = generated multi-line literals (3/5/7/9/11/13/21 quotes; LF / CR / CRLF / mixed interior endings; closing-line indentation of spaces, tabs, mixed, U+3000, VT, FF; empty lines, strict-prefix lines, over-indented and whitespace-only lines, trailing blanks, ''' inside 5/7-quote literals; invalid variants with a mis-indented line or text before the closing quotes; ambiguous variants with a whitespace-only line that is not a prefix) placed as assignment right-hand side, call argument, method-call receiver, comparison operand, concatenation operand, constant, typed array constant, attribute argument, default parameter value, raise / case selector / case arm / for-in operand, and inside an anonymous routine, in generated layouts x generated configuration (both values of format_multiline_strings); mlprog = grammar-derived programs with valid literals. Oracle (own literal parser on the input token and the corresponding output token): valid literal and format_multiline_strings: value lines equal incl. trailing blanks, interior terminators are the configured ending, closing indentation == indentation of the opening quotes' line == prefix of every non-empty interior line; invalid literals and all literals under format_multiline_strings=false: byte-equal; ambiguous literals: untouched or regular lines keep their value. Non-trivial = the literal's bytes change; distinct by hash of (input, configuration)."
             .into()
     }
     fn assumptions(&self) -> Vec<String> {
